@@ -1043,7 +1043,10 @@ mod mpp {
 				Err(e) => { rec.oracle_fail(format!("[{}] panic while reloading the receiver holding {:?}: {}; ops: {}", self.kind, self.held, short(&e), self.history())); self.dead = true; w.bad = true; return; },
 			}
 			w.strict.clear();
-			let seen = observe(w, &self.hash, tpos, epos);
+			let mut seen = observe(w, &self.hash, tpos, epos);
+			// a reloaded ChannelManager re-generates PaymentClaimed for payments claimed earlier (other hashes: documented replay, not this payment)
+			let replayed = seen.trouble.as_deref() == Some("PaymentClaimed for a foreign hash");
+			if replayed { seen.trouble = None; *rec.classes.entry("restart:replayed-PaymentClaimed-of-earlier-payments".into()).or_insert(0) += 1; }
 			if !seen.nothing() { rec.oracle_fail(format!("[{}] reloading the receiver changed the pending payment: {} (held {:?}); ops: {}", self.kind, seen.answer(), self.held, self.history())); }
 			rec.case("restart", &seen.answer(), if self.claimable_set.is_some() { "restart:claimable-set" } else if self.held.is_empty() { "restart:empty" } else { "restart:between-parts" }, true);
 			self.ops.push("restart".into());
